@@ -21,6 +21,7 @@ import random
 import shutil
 import synthmods
 import liars
+import c02_gens
 
 LEVEL = "proof"
 MANIFEST = dict(
@@ -175,6 +176,9 @@ def run(ck):
     syn_dir = os.path.join(scratch, "syn-%d" % ck.seed)
     shutil.rmtree(syn_dir, ignore_errors=True)
     syn = synthmods.write_set(random.Random(ck.seed * 104729 + 3), syn_dir, 120 if quick else 1200)
+    # offset-linked / command-table formats and declared-length liars (MED synth tables with jumps, DBM, IT compressed)
+    syn += synthmods.write_set_extra(random.Random(ck.seed * 7561 + 5), syn_dir, 90 if quick else 900, gens=c02_gens.GENS, prefix="syx")
+    syn += c02_gens.patched_corpus_meds(random.Random(ck.seed * 7561 + 9), sorted(vlib.corpus_files()), syn_dir, 6 if quick else 60)
     files = files + syn * max(1, len(files) // (2 * max(1, len(syn))))
     ck.note("synthetic_modules", len(syn))
     bombs = make_bombs(os.path.join(scratch, "gen"), quick)
